@@ -198,6 +198,8 @@ impl DiscoveryDB {
         &mut self.external_topic_writers,
       );
     }
+    #[cfg(rustdds_verif)]
+    use crate::verif::hooks::Instant; // simulated monotonic clock
     // actual work here:
     self.participant_proxies.insert(guid.prefix, data.clone());
     self
@@ -208,6 +210,8 @@ impl DiscoveryDB {
   }
 
   pub fn participant_is_alive(&mut self, guid_prefix: GuidPrefix) {
+    #[cfg(rustdds_verif)]
+    use crate::verif::hooks::Instant; // simulated monotonic clock
     if let Some(ts) = self.participant_last_life_signs.get_mut(&guid_prefix) {
       let now = Instant::now();
       if now.duration_since(*ts) > std::time::Duration::from_secs(1) {
@@ -309,6 +313,8 @@ impl DiscoveryDB {
   // Delete participant proxies, if we have not heard of them within
   // lease_duration
   pub fn participant_cleanup(&mut self) -> Vec<(GuidPrefix, LostReason)> {
+    #[cfg(rustdds_verif)]
+    use crate::verif::hooks::Instant; // simulated monotonic clock
     let inow = Instant::now();
 
     let mut to_remove = Vec::new();
@@ -763,6 +769,8 @@ impl DiscoveryDB {
   }
 
   pub fn update_lease_duration(&mut self, data: &ParticipantMessageData) {
+    #[cfg(rustdds_verif)]
+    use crate::verif::hooks::Instant; // simulated monotonic clock
     let now = Instant::now();
     let prefix = data.guid;
     self
